@@ -219,7 +219,7 @@ func (c *Ctx) TokenGameRound(fs []Finding, ps []*prog.Program, o RoundOpts) erro
 			} else {
 				unconfirmed++
 				if unconfirmed <= 3 {
-					dir := VerifRoot + "/replays"
+					dir := OutRoot() + "/replays"
 					os.MkdirAll(dir, 0o755)
 					WriteJSON(fmt.Sprintf("%s/unconfirmed-%s-%s-s%d-%d.json", dir, c.Prop, o.Label, c.Seed, r), map[string]any{
 						"rejection": fails[r], "replay": map[string]any{"program": ps[progOf(r)], "schedule": scheds[r], "log": runs[r]}})
